@@ -131,6 +131,9 @@ type Obs struct {
 	Distribution       map[string]int         `json:"distribution"`
 	Violations         []Violation            `json:"violations"`
 	CasesFiles         []string               `json:"cases_files"`
+	// ViolIndex lists EVERY oracle violation that belongs to a correspondence case as
+	// [sig, shard, index] (Violations keeps at most 60 full records per sig).
+	ViolIndex [][]interface{} `json:"viol_index"`
 	Notes              []string               `json:"notes"`
 	Extra              map[string]interface{} `json:"extra,omitempty"`
 }
@@ -233,8 +236,11 @@ func (c *Ctx) flush() {
 }
 
 func (c *Ctx) Violate(sig, desc string, shard, index int, replay interface{}) {
-	if len(c.Obs.Violations) < 200 {
+	if c.Obs.Distribution["violation:"+sig] < 60 && len(c.Obs.Violations) < 1500 {
 		c.Obs.Violations = append(c.Obs.Violations, Violation{sig, desc, shard, index, replay})
+	}
+	if shard >= 0 && len(c.Obs.ViolIndex) < 200000 {
+		c.Obs.ViolIndex = append(c.Obs.ViolIndex, []interface{}{sig, shard, index})
 	}
 	c.Count("violation:" + sig)
 }
